@@ -100,6 +100,12 @@ func (p Proof) Prove(key string) error {
 				continue
 			}
 
+			// NOTE the first pair is the children of the node of the key;
+			// it should be hashed into that node, not into it's sibling.
+			if i == 0 && parents[j].Key() != key {
+				continue
+			}
+
 			switch h, err := nodeHash(parents[j], nodes[bi], nodes[bi+1]); {
 			case err != nil:
 				return e.Wrap(err)
